@@ -452,6 +452,30 @@ func (w *Walker) list(p capnp.Ptr, l capnp.List, t ref.Target, depth int, path s
 					return pbt.Fail("composite-as-uint64", "%s: UInt64List.At(%d)=%#x want %#x", path, i, got, want)
 				}
 			}
+			if dw == 0 && pc >= 1 {
+				// elements without a data section: a primitive view has nothing to read and yields the default
+				if got := (capnp.UInt8List{List: l}).At(i); got != 0 {
+					return pbt.Fail("composite-as-uint8", "%s: UInt8List.At(%d)=%#x on elements that have no data section, want 0", path, i, got)
+				}
+				if got := (capnp.UInt32List{List: l}).At(i); got != 0 {
+					return pbt.Fail("composite-as-uint32", "%s: UInt32List.At(%d)=%#x on elements that have no data section, want 0", path, i, got)
+				}
+				if got := (capnp.UInt64List{List: l}).At(i); got != 0 {
+					return pbt.Fail("composite-as-uint64", "%s: UInt64List.At(%d)=%#x on elements that have no data section (the element's first pointer word is %#x), want 0", path, i, got, binary.LittleEndian.Uint64(w.segData(seg, base, 1)))
+				}
+			}
+			if pc == 0 && dw >= 1 {
+				// elements without pointers: a pointer view yields null (or an error), never an object
+				c, err := capnp.PointerList{List: l}.At(i)
+				if err == nil && c.IsValid() {
+					return pbt.Fail("composite-as-pointerlist/phantom-pointer", "%s: PointerList.At(%d) on elements that have no pointer section returned an object (element data %x)", path, i, clip(ed))
+				}
+				if tl := (capnp.TextList{List: l}); true {
+					if sv, err := tl.At(i); err == nil && sv != "" {
+						return pbt.Fail("composite-as-pointerlist/phantom-pointer", "%s: TextList.At(%d) on elements that have no pointer section returned %q", path, i, sv)
+					}
+				}
+			}
 			if pc >= 1 {
 				c, err := capnp.PointerList{List: l}.At(i)
 				if e := w.Ptr(c, err, seg, base+dw, depth+1, fmt.Sprintf("%s[%d]<as-pointer-list>", path, i)); e != nil {
